@@ -23,6 +23,8 @@ def trigger_of(sel, raw_t, props, nrefs, bad_decl):
     if sel in (':root', 'html'): return 'root-rule-own-colour'
     m = H._VAR.match(raw_t.strip())
     if m:
+        # a property referenced (directly or inside a fallback) by two or more rules with a text colour: rewriting it for one rule changes the others
+        if any(nrefs.get(nm, 0) >= 2 and nm in props for nm in re.findall(r'var\(\s*(--[\w-]+)', raw_t)): return 'var-shared'
         if m.group(2) is not None: return 'var-with-fallback'
         if m.group(1) not in props: return 'var-undefined'
         if nrefs.get(m.group(1), 0) >= 2: return 'var-shared'
@@ -49,8 +51,7 @@ def case(job):
     for sel, decls, depth, bad in rules:
         rc = H.rule_colours(decls, props, dbg)
         if rc:
-            m = H._VAR.match(rc[0].strip())
-            if m: nrefs[m.group(1)] = nrefs.get(m.group(1), 0) + 1
+            for nm in set(re.findall(r'var\(\s*(--[\w-]+)', rc[0])): nrefs[nm] = nrefs.get(nm, 0) + 1
     expected = []
     for sel, decls, depth, bad in rules:
         rc = H.rule_colours(decls, props, dbg)
